@@ -144,13 +144,14 @@ func (e *ptile) Merge(b []byte, x []byte, y []byte) ([]byte, []byte, []byte) {
 }
 
 func (e *ptile) SubMergers(subs []Expr) []SubMerge {
-	result := make([]SubMerge, 0, len(subs))
-	for _, sub := range subs {
-		var sm SubMerge
+	result := make([]SubMerge, len(subs))
+	for i, sub := range subs {
 		if e.String() == sub.String() {
-			sm = e.subMerge
+			// use only the first matching sub expression, merging identical ones
+			// would count their data more than once
+			result[i] = e.subMerge
+			break
 		}
-		result = append(result, sm)
 	}
 	return result
 }
